@@ -4,7 +4,7 @@
 (apply, check, revert) and store it under /verif/seeded/<ID>-<n>/."""
 import json, os, subprocess, sys, shutil, re
 pid, n = sys.argv[1], sys.argv[2]
-props = sys.argv[3:] or [pid]
+props = sys.argv[3:] or [pid[:3]]
 src = f"/tmp/seeded_out/{pid}/change{n}"
 wt = f"/tmp/wt_{pid}"
 meta = json.load(open(f"{src}/meta.json"))
@@ -47,7 +47,7 @@ shutil.copy(f"{src}/patch.diff", dst)
 for f in os.listdir(src):
     if f.startswith("demo") or f.endswith(".rs"):
         shutil.copy(f"{src}/{f}", dst)
-meta_out = {"property": pid, "breaks": meta.get("summary"), "needs": meta.get("needs"), "demo_cmd": demo_cmd,
+meta_out = {"property": pid[:3], "breaks": meta.get("summary"), "needs": meta.get("needs"), "demo_cmd": demo_cmd,
             "origin": "written by an independent sub-agent given only the property text and a scratch worktree",
             "confirmed_by_us": {"ok": confirmed, "ran": ran},
             "checks_run_against_it": results,
